@@ -5,9 +5,11 @@ package main
 // wrappers around every exported pkg/digest entry point the check uses.
 
 import (
+	"bufio"
 	"bytes"
 	"encoding/hex"
 	"fmt"
+	"io"
 	"sort"
 	"strconv"
 	"strings"
@@ -175,6 +177,9 @@ func guard(f func()) (p string) {
 }
 
 func panicFinding(fn, p, input string) finding {
+	if strings.HasPrefix(p, readerKindMarker) {
+		return finding{"reader-kind-dependent:" + fn, fmt.Sprintf("%s on %s: %s", fn, input, p)}
+	}
 	return finding{"panic:" + fn, fmt.Sprintf("%s panicked on %s: %s", fn, input, p)}
 }
 
@@ -328,8 +333,57 @@ func roundTripPath(parser string, d digest.Digest, c compEnum, inst string) *fin
 	return nil
 }
 
+const readerKindMarker = "verdict depends on the kind of io.ByteReader: "
+
+// byteReaderOnly hides every method of the underlying reader but ReadByte.
+type byteReaderOnly struct{ r *bytes.Reader }
+
+func (b byteReaderOnly) ReadByte() (byte, error) { return b.r.ReadByte() }
+
+// shortReader is an io.Reader and io.ByteReader whose Read hands out at most n
+// bytes per call (a legitimate short read, as of a pipe or a socket).
+type shortReader struct {
+	r *bytes.Reader
+	n int
+}
+
+func (s shortReader) ReadByte() (byte, error) { return s.r.ReadByte() }
+func (s shortReader) Read(p []byte) (int, error) {
+	if len(p) > s.n {
+		p = p[:s.n]
+	}
+	return s.r.Read(p)
+}
+
+// parseCompact parses b through every kind of io.ByteReader the API admits
+// (the environment answer "how many bytes does one Read return" is enumerated:
+// all at once, ByteReader only, 1 and 3 bytes per Read, bufio over each) and
+// demands the same verdict from all of them.
 func parseCompact(inst digest.InstanceName, b []byte) (d digest.Digest, err error, pan string) {
 	pan = guard(func() { d, err = inst.NewDigestFromCompactBinary(bytes.NewReader(b)) })
+	if pan != "" {
+		return
+	}
+	kinds := []struct {
+		name string
+		mk   func() io.ByteReader
+	}{
+		{"ByteReader only", func() io.ByteReader { return byteReaderOnly{bytes.NewReader(b)} }},
+		{"Reader+ByteReader, 1 byte per Read", func() io.ByteReader { return shortReader{bytes.NewReader(b), 1} }},
+		{"Reader+ByteReader, 3 bytes per Read", func() io.ByteReader { return shortReader{bytes.NewReader(b), 3} }},
+		{"bufio.Reader over 1 byte per Read", func() io.ByteReader { return bufio.NewReaderSize(shortReader{bytes.NewReader(b), 1}, 16) }},
+		{"bufio.Reader over 3 bytes per Read", func() io.ByteReader { return bufio.NewReaderSize(shortReader{bytes.NewReader(b), 3}, 16) }},
+	}
+	for _, k := range kinds {
+		var d2 digest.Digest
+		var err2 error
+		if p2 := guard(func() { d2, err2 = inst.NewDigestFromCompactBinary(k.mk()) }); p2 != "" {
+			return d, err, p2
+		}
+		if (err == nil) != (err2 == nil) || (err == nil && d != d2) {
+			return d, err, fmt.Sprintf("%sbytes.Reader gives (%q, %v), %s gives (%q, %v)", readerKindMarker, dstr(d), err, k.name, dstr(d2), err2)
+		}
+	}
 	return
 }
 
